@@ -122,7 +122,8 @@ type Sim struct {
 	objKeep     []unsafe.Pointer
 	Procs       int // what runtime.GOMAXPROCS(0) and runtime.NumCPU() report to the library in this run
 	objUsed     int
-	keyNums     addrTable // pointers used as map keys by the library (see maporder.go)
+	conds       []*condShadow // condition variables of the library with simulated waiters (coop.go)
+	keyNums     addrTable     // pointers used as map keys by the library (see maporder.go)
 	objVals     []int32
 	objCount    int
 	realGCs     int
